@@ -1,7 +1,8 @@
 SPECIFICATION Spec
 CONSTANTS
   Series = {"s1"}
-  Times = {0, 1, 2, 3, 4}
+  TOff = 0
+  TimesRaw = {0, 1, 2, 3, 4}
   Vals = {1, 2}
   Types = {"f", "h"}
   Apps = {"a1"}
@@ -11,9 +12,14 @@ CONSTANTS
   Acts = {"NewAppender", "Append", "Commit", "Rollback"}
   Apis = {"v1", "v2"}
   Rej = {FALSE}
-  DelRanges = {}
+  DelLo = {}
+  DelHi = {}
   MaxPend = 2
   MaxOps = 8
+  AllowKF = {"KF-C01-2"}
+  KFInitOpts = TRUE
+  KFV1Hist = TRUE
+  Balanced = FALSE
   EmitMode = "class"
 VIEW View
 INVARIANTS C01_Exact InoSorted OohSorted EmitCommitState
